@@ -1,7 +1,8 @@
 (* C05 -- RaggedArray.__getitem__ re-assembled from the definitions that translator/tr_ragged.py
    regenerates from enspara/ra/ra.py (Gen/RaGen.v): wherever Model/Ragged.v:get_c uses its hand-written
    conv2d / starts_of / sl_indices / conv1d / iis_from_slices / iis_from_list, [get_g] uses gen_conv2d /
-   gen_starts / gen_slice_to_list / gen_conv1d / gen_iis_from_slices / gen_iis_from_list.  Python ints are Z
+   gen_starts / gen_slice_to_list / gen_conv1d / gen_iis_from_slices / gen_iis_from_list, and gen_c2_pairs for
+   its bpairs.  Python ints are Z
    on this side (lengths and starts as the code sees them).  The forms NumPy handles alone (a[r], a[s:e:k],
    a[[..]], a[r, s:e:k]) are those of get_c.  No proofs here (Proof/RaGenProofs.v shows get_g = get_c). *)
 From Coq Require Import List ZArith Bool.
@@ -36,7 +37,7 @@ Definition where_g (m : list (list bool)) : option (list (Z * Z)) :=
 Definition get_g {A} (s : conc A) (i : idx) : result A :=
   match i with
   | Elem r c => flat_result (gather_g s [(r, c)])
-  | Pairs rs cs => if Nat.eqb (length rs) (length cs) then flat_result (gather_g s (combine rs cs)) else Err
+  | Pairs rs cs => match gen_c2_pairs rs cs with Some ps => flat_result (gather_g s ps) | None => Err end
   | PairsScalar rs c => flat_result (gather_g s (map (fun r => (r, c)) rs))
   | ElemList r cs => flat_result (gather_g s (map (fun c => (r, c)) cs))
   | Sl2SS rsl csl =>
